@@ -134,16 +134,11 @@ Example C02_F3_lib_witness :
   end /\
   c02_f3 (mkOpts 9 1 false) g_lib_multiline = true /\ c02_f3 (mkOpts 9 0 false) g_lib_multiline = false.
 Proof. vm_compute. repeat split; reflexivity. Qed.
-(** an empty contour is written and then dropped by the reader; a subnormal advance is not written *)
+(** an empty contour is written and then dropped by the reader *)
 Example C02_empty_contour_witness :
   let g := mkGlyph [97] f0 f0 [] None None [] [] [] [mkContour [] None None] [] in
   match reread (mkOpts 9 1 false) g with Ok g' => gcontours g' = [] | _ => False end /\
   c02_empty_contour g = true.
-Proof. vm_compute. split; reflexivity. Qed.
-Example C02_advance_subnormal_witness :
-  let g := mkGlyph [97] (FFin false 1 (-1070)) f0 [] None None [] [] [] [] [] in
-  match reread (mkOpts 9 1 false) g with Ok g' => gwidth g' = f0 | _ => False end /\
-  c02_advance_subnormal g = true.
 Proof. vm_compute. split; reflexivity. Qed.
 (** non-vacuity of the codec theorems: a contour that satisfies their hypotheses *)
 Example C02_contour_hypotheses_satisfiable :
